@@ -467,22 +467,38 @@ func Ite(c, a, b *Term) *Term {
 		return Ite(c.Args[0], b, a)
 	}
 	if a.Sort == StringS && (a.Op == "str.++" || b.Op == "str.++") {
-		// factor structurally equal leading / trailing parts out of the choice
+		// factor what both alternatives share out of the choice: first equal
+		// leading parts, then a common head of two constants, then equal
+		// trailing parts (in this order, so that "x\n" vs "x\ny = z\n" becomes
+		// "x\n" ++ ite(c, "", "y = z\n"), the shape specifications have)
 		pa, pb := concatParts(a), concatParts(b)
 		i := 0
 		for i < len(pa) && i < len(pb) && pa[i] == pb[i] {
 			i++
 		}
-		ja, jb := len(pa), len(pb)
-		for ja > i && jb > i && pa[ja-1] == pb[jb-1] {
+		lead := append([]*Term{}, pa[:i]...)
+		ra, rb := append([]*Term{}, pa[i:]...), append([]*Term{}, pb[i:]...)
+		if len(ra) > 0 && len(rb) > 0 && ra[0].Op == "str" && rb[0].Op == "str" {
+			x, y := ra[0].SVal, rb[0].SVal
+			n := 0
+			for n < len(x) && n < len(y) && x[n] == y[n] {
+				n++
+			}
+			if n > 0 {
+				lead = append(lead, StrT(x[:n]))
+				ra[0], rb[0] = StrT(x[n:]), StrT(y[n:])
+			}
+		}
+		ja, jb := len(ra), len(rb)
+		for ja > 0 && jb > 0 && ra[ja-1] == rb[jb-1] && !(ra[ja-1].Op == "str" && ra[ja-1].SVal == "") {
 			ja--
 			jb--
 		}
-		if i > 0 || ja < len(pa) {
+		if len(lead) > 0 || ja < len(ra) {
 			var parts []*Term
-			parts = append(parts, pa[:i]...)
-			parts = append(parts, Ite(c, Concat(pa[i:ja]...), Concat(pb[i:jb]...)))
-			parts = append(parts, pa[ja:]...)
+			parts = append(parts, lead...)
+			parts = append(parts, Ite(c, Concat(ra[:ja]...), Concat(rb[:jb]...)))
+			parts = append(parts, ra[ja:]...)
 			return Concat(parts...)
 		}
 	}
@@ -1004,6 +1020,35 @@ func StrSuffixOf(p, s *Term) *Term {
 	}
 	if p.Op == "str" && p.SVal == "" {
 		return True
+	}
+	if p == s {
+		return True
+	}
+	// strip structurally equal trailing parts (and a common constant tail)
+	pp, sp := concatParts(p), concatParts(s)
+	k := 0
+	for k < len(pp) && k < len(sp) && pp[len(pp)-1-k] == sp[len(sp)-1-k] {
+		k++
+	}
+	if k > 0 {
+		return StrSuffixOf(Concat(pp[:len(pp)-k]...), Concat(sp[:len(sp)-k]...))
+	}
+	if len(pp) > 0 && len(sp) > 0 {
+		a, b := pp[len(pp)-1], sp[len(sp)-1]
+		if a.Op == "str" && b.Op == "str" && a != b {
+			n := 0
+			for n < len(a.SVal) && n < len(b.SVal) && a.SVal[len(a.SVal)-1-n] == b.SVal[len(b.SVal)-1-n] {
+				n++
+			}
+			if n < len(a.SVal) && n < len(b.SVal) {
+				return False // the constant tails differ
+			}
+			if n > 0 {
+				na := append(append([]*Term{}, pp[:len(pp)-1]...), StrT(a.SVal[:len(a.SVal)-n]))
+				nb := append(append([]*Term{}, sp[:len(sp)-1]...), StrT(b.SVal[:len(b.SVal)-n]))
+				return StrSuffixOf(Concat(na...), Concat(nb...))
+			}
+		}
 	}
 	return mk("str.suffixof", BoolS, p, s)
 }
